@@ -42,6 +42,12 @@ fn judge<'a, T: DiffableStr + ?Sized + 'a>(d: &'a TextDiff<'a, 'a, 'a, T>, opt: 
                 return Err(format!("{:?}: iter_inline_changes_deadline(op, None) called twice gives different results", op));
             }
         }
+        // the inline iterator under every std consumer (count, last, nth, fold, ...), no deadline
+        if opt == 0 && inline.len() <= 8 {
+            let tup = |ic: similar::InlineChange<'a, T>| (ic.tag(), ic.old_index(), ic.new_index(), ic.missing_newline(), ic.values().iter().map(|(e, s)| (*e, s.as_bytes().to_vec())).collect::<Vec<_>>());
+            let want: Vec<_> = d.iter_inline_changes_deadline(op, None).map(tup).collect();
+            consumers_agree("iter_inline_changes_deadline(op, None)", || d.iter_inline_changes_deadline(op, None), tup, &want, inline.len() / 2)?;
+        }
         // only changed words are emphasised: whatever is NOT emphasised on the old side of a Replace is
         // what is not emphasised on its new side (the words the two sides share), line breaks aside;
         // judged when the op was refined at all (some segment is emphasised)
@@ -182,8 +188,8 @@ pub fn check_case(c: &TextCase, obs: &mut Obs) -> Verdict {
     obs.class_if(c.has_invalid(), "invalid UTF-8");
     // how the line diff is built: 0 diff_lines; 1 / 2 with newline_terminated(false / true); 3 / 4
     // diff_slices over the line tokens (terminators kept), 4 with newline_terminated(true)
-    let how = c.tok % 6;
-    obs.class(["built by diff_lines", "diff_lines + newline_terminated(false)", "diff_lines + newline_terminated(true)", "diff_slices over line tokens", "diff_slices over line tokens + newline_terminated(true)", "diff_slices over caller-split lines WITHOUT terminators (blank lines are empty items)"][how as usize]);
+    let how = c.tok % 7;
+    obs.class(["built by diff_lines", "diff_lines + newline_terminated(false)", "diff_lines + newline_terminated(true)", "diff_slices over line tokens", "diff_slices over line tokens + newline_terminated(true)", "diff_slices over caller-split lines WITHOUT terminators (blank lines are empty items)", "diff_slices over items of TWO lines each (a line break inside the item)"][how as usize]);
     let mut cfg = cfg;
     match how {
         1 => {
@@ -206,6 +212,10 @@ pub fn check_case(c: &TextCase, obs: &mut Obs) -> Verdict {
                     to = to.into_iter().map(|t| strip(t)).collect();
                     tn = tn.into_iter().map(|t| strip(t)).collect();
                 }
+                if how == 6 {
+                    to = pair_up(&c.old.0[..], &to).into_iter().map(|r| &c.old.0[r]).collect();
+                    tn = pair_up(&c.new.0[..], &tn).into_iter().map(|r| &c.new.0[r]).collect();
+                }
                 let d = cfg.diff_slices(&to, &tn);
                 judge(&d, opt, how == 5, obs)
             } else {
@@ -224,6 +234,11 @@ pub fn check_case(c: &TextCase, obs: &mut Obs) -> Verdict {
                     to = to.into_iter().map(|t| strip(t)).collect();
                     tn = tn.into_iter().map(|t| strip(t)).collect();
                 }
+                if how == 6 {
+                    let (so, sn) = (c.old.as_str().unwrap(), c.new.as_str().unwrap());
+                    to = pair_up(so.as_bytes(), &to.iter().map(|t| t.as_bytes()).collect::<Vec<_>>()).into_iter().map(|r| &so[r]).collect();
+                    tn = pair_up(sn.as_bytes(), &tn.iter().map(|t| t.as_bytes()).collect::<Vec<_>>()).into_iter().map(|r| &sn[r]).collect();
+                }
                 let d = cfg.diff_slices(&to, &tn);
                 judge(&d, opt, how == 5, obs)
             } else {
@@ -237,6 +252,20 @@ pub fn check_case(c: &TextCase, obs: &mut Obs) -> Verdict {
         Ok(Err(m)) => Verdict::Fail(format!("{} lines {}: {}", alg_name(c.alg), if c.use_bytes() { "[u8]" } else { "str" }, m)),
         Err(p) => Verdict::Fail(format!("inline changes: {}", p)),
     }
+}
+
+/// byte ranges of the items obtained by joining consecutive line tokens two by two (the tokens
+/// partition `text`)
+fn pair_up(text: &[u8], toks: &[&[u8]]) -> Vec<std::ops::Range<usize>> {
+    let mut out = vec![];
+    let mut at = 0;
+    for pair in toks.chunks(2) {
+        let len: usize = pair.iter().map(|t| t.len()).sum();
+        out.push(at..at + len);
+        at += len;
+    }
+    debug_assert!(at == text.len());
+    out
 }
 
 /// lines made of several words, mutated at word level, so Replace ops pass the ratio gates
@@ -314,7 +343,7 @@ fn wordy_pair(invalid: bool) -> BoxedStrategy<(crate::gen::BStr, crate::gen::BSt
 
 fn strat(tier: Tier) -> BoxedStrategy<TextCase> {
     let wordy = |invalid: bool| {
-        (wordy_pair(invalid), 0u8..3, any::<bool>(), 0u8..8, prop_oneof![4 => Just(0u8), 1 => 1u8..6])
+        (wordy_pair(invalid), 0u8..3, any::<bool>(), 0u8..8, prop_oneof![4 => Just(0u8), 1 => 1u8..7])
             .prop_map(move |((old, new), alg, bytes, opt, tok)| TextCase { old, new, tok, alg, bytes: bytes || invalid, opt })
     };
     prop_oneof![20 => wordy(false), 12 => wordy(true), 8 => line_case(tier.pick(20, 60), true), 4 => text_case_mix(60).prop_map(|mut c| { c.tok = 0; c }), 1 => big_line_case(tier.pick(120, 200))].boxed()
@@ -352,7 +381,7 @@ impl Prop for C16 {
     type Case = TextCase;
     const ID: &'static str = "C16";
     fn rule() -> String {
-        "cases = (old, new, algorithm, str | [u8], construction in {diff_lines, diff_lines with newline_terminated(false|true), diff_slices over the line tokens (with/without newline_terminated(true)), diff_slices over caller-split lines without terminators (blank lines are empty items)}, inline deadline in {None, virtual clock expiring at probe 0..3, real deadline in the past, default iter_inline_changes}); line texts whose lines consist of several words and are mutated at WORD level (replace/insert/delete a word, change the terminator, duplicate/delete a line) so that Replace ops pass both similarity gates; words include multi-byte, combining, emoji, NBSP and (for [u8]) invalid UTF-8 fragments; plus the shared line/text mixtures. Oracle per op: inline tags and old/new indices == plain expansion; segments concatenate to the plain change's line; emphasised segments only in Delete/Insert changes of a Replace op and without CR/LF; in a refined Replace the un-emphasised text of the old lines equals the un-emphasised text of the new lines, line breaks aside (only changed words are emphasised); missing_newline agrees with the line; no panic. Non-trivial = some line has both an emphasised and a plain segment; distinct = distinct serialized case.".into()
+        "cases = (old, new, algorithm, str | [u8], construction in {diff_lines, diff_lines with newline_terminated(false|true), diff_slices over the line tokens (with/without newline_terminated(true)), diff_slices over caller-split lines without terminators (blank lines are empty items), diff_slices over items of two lines each (a line break inside the item)}, inline deadline in {None, virtual clock expiring at probe 0..3, real deadline in the past, default iter_inline_changes}); line texts whose lines consist of several words and are mutated at WORD level (replace/insert/delete a word, change the terminator, duplicate/delete a line) so that Replace ops pass both similarity gates; words include multi-byte, combining, emoji, NBSP and (for [u8]) invalid UTF-8 fragments; plus the shared line/text mixtures. Oracle per op: inline tags and old/new indices == plain expansion; segments concatenate to the plain change's line; emphasised segments only in Delete/Insert changes of a Replace op and without CR/LF; in a refined Replace the un-emphasised text of the old lines equals the un-emphasised text of the new lines, line breaks aside (only changed words are emphasised); missing_newline agrees with the line; no panic. Non-trivial = some line has both an emphasised and a plain segment; distinct = distinct serialized case.".into()
     }
     fn assumptions() -> Vec<String> {
         vec!["'line-break character' = CR or LF (the crate's own line convention)".into(), "the default 500 ms deadline variant is judged only by invariants that hold whether or not it expires".into()]
